@@ -4,7 +4,7 @@ After every step of every history, and for every configuration whose index is fl
 holds and the live index must give identical answers for ~95 queries (all six time operators at every pool time and at +-1 microsecond,
 tag/field/measurement leaves, compounds) and for every getter with every measurement argument, plus len/empty/latest_time.  Validity rules
 with automatic indexing: an in-order insert into a valid index keeps it valid, and every read leaves it valid.
-Exhaustive part: all sequences over a 14-operation alphabet up to depth 4 (quick) / 5 (thorough) on MemoryStorage, auto_index on and off.
+Exhaustive part: all sequences over a 14-operation alphabet up to depth 4 (quick) / 5 (thorough) on MemoryStorage and up to depth 3 / 4 on CSVStorage, auto_index on and off.
 Generated part: long random histories on all four configurations (incl. operations that raise).
 """
 import copy
@@ -145,9 +145,14 @@ def dfs(ls, depth, acc, stats, first_ops=None):
         del kinds
 
 
+CSV2 = [("csv", True), ("csv", False)]
+
+
 def shards(tier):
     depth = 4 if tier == "quick" else 5
     s = [{"kind": "exhaustive", "first": [i], "depth": depth} for i in range(len(ALPHABET))]
+    # the same alphabet on CSV storage (no state cloning there: every sequence is replayed from an empty file)
+    s += [{"kind": "exhaustive_csv", "first": i, "depth": 3 if tier == "quick" else 4} for i in range(len(ALPHABET))]
     n = 12
     for i in range(n):
         s.append({"kind": "hyp", "n": 150 if tier == "quick" else 1500, "max_ops": 25 if (tier == "quick" or i % 2 == 0) else 60})
@@ -157,6 +162,27 @@ def shards(tier):
 def run_shard(spec, ctx):
     if spec["kind"] == "hyp":
         return _gen_shard(spec, ctx)
+    if spec["kind"] == "exhaustive_csv":
+        import itertools
+
+        n = 0
+        for rest in itertools.product(ALPHABET, repeat=spec["depth"] - 1):
+            seq = [ALPHABET[spec["first"]]] + list(rest)
+            ls = lockstep.Lockstep(ctx, configs=CSV2)
+            ls.step_hooks = [eq_hook]
+            ls.pre_hooks = [pre_validity]
+            ls.post_hooks = [post_validity]
+            try:
+                ls.run(seq)
+            finally:
+                shutil.rmtree(ls.dir, ignore_errors=True)
+            n += 1
+            rm = [k for k, o in enumerate(seq) if o[0] in ("remove", "drop", "remove_all") or (o[0] == "insert_multiple" and o[5] is not None) or (o[0] == "update" and isinstance(o[3].get("tags"), list))]
+            if rm and any(o[0] in ("insert", "insert_multiple") for o in seq[rm[0] + 1:]):
+                ctx.acc.nontrivial_enum += 1
+        ctx.acc.cls("exhaustive_csv_sequences", n)
+        ctx.acc.extra = {"exhaustive_csv_sequences": n, "csv_depth": spec["depth"]}
+        return
     ls = lockstep.Lockstep(ctx, configs=MEM)
     stats = {"nodes": 0}
     try:
@@ -182,4 +208,6 @@ def replay(sub, case, ctx):
 def finish(merged, tier):
     nodes = sum(e.get("exhaustive_nodes", 0) for e in merged["extra"])
     depth = max([e.get("depth", 0) for e in merged["extra"]] or [0])
-    return {"exhaustive": True, "exhaustive_part": "all %d operation sequences of length <= %d over the 14-operation alphabet on MemoryStorage x {auto_index on, off}" % (nodes, depth)}
+    ncsv = sum(e.get("exhaustive_csv_sequences", 0) for e in merged["extra"])
+    dcsv = max([e.get("csv_depth", 0) for e in merged["extra"]] or [0])
+    return {"exhaustive": True, "exhaustive_part": "all %d operation sequences of length <= %d over the 14-operation alphabet on MemoryStorage x {auto_index on, off}; all %d sequences of length %d (and thereby every shorter prefix) on CSVStorage x {auto_index on, off}" % (nodes, depth, ncsv, dcsv)}
